@@ -16,6 +16,7 @@
 package core
 
 import (
+	"bytes"
 	"strconv"
 
 	"rcproxy/core/codec"
@@ -29,6 +30,12 @@ type CRespCodec struct {
 	MsgMaxLength int
 }
 
+// limits of the redis protocol itself: a request beyond them can never be served
+const (
+	maxRequestArgs = 1024 * 1024
+	maxBulkLength  = 512 * 1024 * 1024
+)
+
 // There are three cases of protocol parsing
 // 1. successful parsing
 // 2. tcp packet incompleteness leads to parsing exceptions, wait for the next event loop
@@ -40,8 +47,11 @@ func (rc *CRespCodec) Decode(c CConn) (*Msg, error) {
 		return nil, errors.ErrIncompletePacket
 	}
 
-	line, err := buf.ReadLine()
+	line, err := rc.readLine(buf)
 	if err != nil {
+		if err == codec.ErrInvalidResp {
+			return nil, err
+		}
 		return nil, errors.ErrIncompletePacket
 	}
 
@@ -51,9 +61,10 @@ func (rc *CRespCodec) Decode(c CConn) (*Msg, error) {
 	switch line[0] {
 	case '*':
 		n, err = parseLen(line[1:])
-		if n < 1 || err != nil {
+		if n < 1 || n > maxRequestArgs || err != nil {
+			// a request is an array of at least one bulk string
 			logging.Warnf("[%dm][%dc] unexpect resp, buf: %s", msgId, c.Fd(), utils.FormatRedisRESPMessages(buf.PeekAll()))
-			return nil, err
+			return nil, codec.ErrInvalidResp
 		}
 	default:
 		logging.Warnf("[%dm][%dc] unexpect resp, buf: %s", msgId, c.Fd(), utils.FormatRedisRESPMessages(buf.PeekAll()))
@@ -277,16 +288,37 @@ func (rc *CRespCodec) MSet(resp *Msg) {
 	}
 }
 
-func (rc *CRespCodec) parseLine(buf *codec.Buffer) ([]byte, error) {
+// readLine reads a header line of a request. Bytes that no continuation can turn into a valid line
+// (a line without CRLF ending, a CR followed by something other than LF, a line too short to hold a
+// type byte) are reported as invalid instead of incomplete, so that the connection is not kept waiting.
+func (rc *CRespCodec) readLine(buf *codec.Buffer) ([]byte, error) {
+	before := buf.ReadSize()
 	line, err := buf.ReadLine()
+	switch err {
+	case codec.EmptyLine:
+		if buf.ReadSize() > before {
+			return nil, codec.ErrInvalidResp
+		}
+	case codec.ErrLFNotFound:
+		left := buf.PeekAll()[buf.ReadSize():]
+		if cr := bytes.IndexByte(left, codec.CRByte); cr >= 0 && cr < len(left)-1 {
+			return nil, codec.ErrInvalidResp
+		}
+	}
+	return line, err
+}
+
+func (rc *CRespCodec) parseLine(buf *codec.Buffer) ([]byte, error) {
+	line, err := rc.readLine(buf)
 	if err != nil {
 		return nil, err
 	}
 	switch line[0] {
 	case '$':
 		n, err := parseLen(line[1:])
-		if n < 0 || err != nil {
-			return nil, err
+		if n < 0 || n > maxBulkLength || err != nil {
+			// a request argument is never a null bulk string
+			return nil, codec.ErrInvalidResp
 		}
 		b, err := buf.ReadN(n)
 		if err != nil {
